@@ -7,11 +7,13 @@ pub mod c06;
 pub mod c07;
 pub mod c08;
 pub mod c09;
+pub mod c09r2;
 pub mod c11;
 pub mod c12;
 pub mod c14;
 pub mod c15;
 pub mod c16;
+pub mod c17;
 pub mod c18;
 pub mod c20;
 pub mod kb;
@@ -32,15 +34,12 @@ pub fn dispatch(prop: &str, p: &Params) -> Option<Report> {
         "C06" => c06::run(p),
         "C07" => c07::run(p),
         "C08" => c08::run(p),
-        "C15" => {
-            let mut rep = Report::new("C15");
-            c15::run_r0(p, &mut rep);
-            rep
-        }
+        "C15" => c15::run(p),
         "C11" => c11::run(p),
         "C12" => c12::run(p),
         "C14" => c14::run(p),
         "C16" => c16::run(p),
+        "C17" => c17::run(p),
         "C18" => c18::run(p),
         "C20" => c20::run(p),
         "C09" => c09::run(p, "C09"),
